@@ -43,8 +43,12 @@ pub fn run(o: &Opts, _deck: &str) -> String {
         let smax = pool.min(if q % 10 == 0 { 100 } else { 14 });
         let sm = 1 + rng.below(smax as u64) as usize;
         let sn = 1 + rng.below(smax as u64) as usize;
-        let mu = support(&mut rng, pool, sm, q % 3 == 0);
-        let nu = support(&mut rng, pool, sn, q % 5 == 0);
+        let mut mu = support(&mut rng, pool, sm, q % 3 == 0);
+        let mut nu = support(&mut rng, pool, sn, q % 5 == 0);
+        if q % 50 == 48 {
+            mu = (0..4.min(pool)).map(|i| (i, 5usize)).collect();                       // uniform source
+            nu = (0..4.min(pool)).map(|i| (i, if i == 3 { 65usize } else { 5 })).collect(); // 1:1:1:13 target
+        }
         // metric over the pool: embedded points (|a-b| on a line / plane), random symmetric, or nearly degenerate
         let kind = q % 3;
         let pts: Vec<(f32, f32)> = (0..pool).map(|_| (rng.unit() as f32, rng.unit() as f32)).collect();
@@ -52,7 +56,7 @@ pub fn run(o: &Opts, _deck: &str) -> String {
         let mut mx = f32::MIN_POSITIVE;
         for i in 0..pool {
             for j in 0..i {
-                let d = if q % 50 == 49 { 0.0 } else { match kind {
+                let d = if q % 50 == 49 { 0.0 } else if q % 50 == 48 { 1e-5 * (1.0 + 0.2 * rng.unit() as f32) } else { match kind {
                     0 => ((pts[i].0 - pts[j].0).powi(2) + (pts[i].1 - pts[j].1).powi(2)).sqrt(),
                     1 => 0.02 + 0.98 * rng.unit() as f32,
                     _ => if rng.chance(0.8) { 1e-4 * (1.0 + rng.unit() as f32) } else { rng.unit() as f32 },
@@ -61,6 +65,8 @@ pub fn run(o: &Opts, _deck: &str) -> String {
                 entries.push((i, j, d));
             }
         }
+        // one instance in fifty: every bucket within 1.2e-5 of every other (entries NOT rescaled), uniform source, skewed target
+        if q % 50 == 48 { mx = 1.0; }
         let all = Abstraction::all(street);
         let raw: Vec<(i64, f32)> = entries.iter().map(|(i, j, d)| (i64::from(Pair::from((&all[*i], &all[*j]))), d / mx)).collect();
         // one instance in fifty: every distance zero (all centroids coincide), built through the public normalising
